@@ -1,0 +1,10 @@
+//go:build !verif
+
+package mangos
+
+// Hooks of the conformance harness in /verif; empty unless built with the
+// "verif" tag (see message_verif.go).
+
+func verifMsgNew(*Message, int) {}
+func verifMsgFree(*Message)     {}
+func verifMsgClone(*Message)    {}
